@@ -12,6 +12,19 @@ fn main() {
         usage();
     }
     let id = args[0].clone();
+    if id == "selftest" {
+        let mut bad = 0;
+        for (name, r) in [("isa", mosverif::model::isa::self_test()), ("cpu", mosverif::model::cpu::self_test())] {
+            match r {
+                Ok(()) => println!("selftest {}: ok", name),
+                Err(e) => {
+                    println!("selftest {}: FAILED {}", name, e);
+                    bad += 1;
+                }
+            }
+        }
+        std::process::exit(if bad > 0 { 2 } else { 0 });
+    }
     let mut tier = match std::env::var("VERIF_TIER").ok().as_deref() {
         Some("thorough") => Tier::Thorough,
         _ => Tier::Quick,
